@@ -566,7 +566,13 @@ func runProxyCase(k *toks, o *out) {
 				k.bad = true
 				break
 			}
-			d := net.Dialer{LocalAddr: &net.TCPAddr{IP: net.ParseIP(ip), Port: port}, Timeout: 2 * time.Second}
+			// (the fixed source port may still be in TIME_WAIT from an earlier scenario that lived in this address block)
+			d := net.Dialer{LocalAddr: &net.TCPAddr{IP: net.ParseIP(ip), Port: port}, Timeout: 2 * time.Second,
+				Control: func(network, address string, rc syscall.RawConn) error {
+					var e error
+					rc.Control(func(fd uintptr) { e = syscall.SetsockoptInt(int(fd), syscall.SOL_SOCKET, syscall.SO_REUSEADDR, 1) })
+					return e
+				}}
 			c, err := d.Dial("tcp", net.JoinHostPort(pc.listens[li].addr, strconv.Itoa(pc.listens[li].tcp)))
 			if err != nil {
 				pc.notes = append(pc.notes, "connect-fail:"+err.Error())
